@@ -79,7 +79,16 @@ def modelLine (l : Line) : String × Bool :=
   | "handler" =>
     let ent := str l "entry"
     if ent == "" then ("unrouted", true) else
-    if ((shapeTable.find? (·.1 == ent)).map (·.2)).getD true then ("single-response", (monitorLine l).isNone)
+    -- may the function that calls the hint verifier at this endpoint go on with nil claims (result contract)?
+    let hintPanic := match F.callers.find? (·.fn == str l "tcaller") with
+      | some c => callerMayPanic F c (str l "tcheck")
+      | none => false
+    -- F-C09f: `client` of op.Authorize stays nil behind an AuthorizeValidator
+    let nilClient := str l "router" == "custom-authorize" && GenC09.closureAssigned.contains ("op.Authorize", "client")
+    let mayPanic := hintPanic || nilClient
+    if ((shapeTable.find? (·.1 == ent)).map (·.2)).getD true then
+      if mayPanic then ("single-response/may-panic", (monitorLine l).isNone || bool l "panic")
+      else ("single-response", (monitorLine l).isNone)
     else ("shape-broken", true)     -- the regenerated skeleton admits a bad path: whatever is observed is consistent
   | "dec" =>
     if !bool l "json" then
@@ -109,6 +118,12 @@ def modelLine (l : Line) : String × Bool :=
     let t : Tok := { parts := nat l "parts", b64ok := bool l "b64", payload := jvalOf l }
     let p := verifyPanics F (str l "fn") t
     (if p then "panic" else "no-panic", p == (obs == "panic"))
+  | "hint" =>
+    match F.callers.find? (·.fn == str l "caller") with
+    | some c =>
+      let p := callerMayPanic F c (str l "tcheck")
+      (if p then "may-panic" else "no-panic", p || obs != "panic")
+    | none => ("no-tolerant-caller", obs != "panic")
   | "client" =>
     let fn := str l "fn"
     if fn == "" then ("no-panic", obs != "panic") else
